@@ -583,483 +583,6 @@ def history_has_opaque(case):
 
 
 
-# ------------------------------------------------------------------ running the real code
-
-@contextmanager
-def replaced_environ(env):
-    old = dict(os.environ)
-    try:
-        os.environ.clear()
-        os.environ.update(env)
-        yield
-    finally:
-        os.environ.clear()
-        os.environ.update(old)
-
-
-def make_config(case):
-    from invoke.config import Config
-    pre, how = case["prefix"], case.get("how", "default")
-    if how == "default":
-        klass = Config
-    elif how == "prefix":
-        klass = type("PrefixedConfig", (Config,), {"prefix": pre})
-    else:
-        klass = type("EnvPrefixedConfig", (Config,), {"env_prefix": pre})
-    return klass(defaults=copy.deepcopy(build(case["tree"])), lazy=True)
-
-
-def run_impl(case):
-    """-> (before view, exception class name | None, after view)"""
-    with replaced_environ(case["env"]):
-        c = make_config(case)
-        before = plain(c)
-        try:
-            c.load_shell_env()
-        except Exception as e:  # noqa
-            return before, type(e).__name__, plain(c)
-        return before, None, plain(c)
-
-
-# ------------------------------------------------------------------ oracle: the property, stated directly
-
-def expected(case, before):
-    """-> ('ambiguous' | 'uncastable' | 'dontcare' | 'ok', {path: typed value} overrides)"""
-    P = case["prefix"].upper() + "_"
-    lv = list(leaves(before))
-    names = {}
-    for p, _ in lv:
-        names.setdefault(var_of(p), []).append(p)
-    if any(len(ps) > 1 for ps in names.values()):
-        return "ambiguous", {}
-    exp, unc, dc = {}, False, False
-    for p, v in lv:
-        key = P + var_of(p)
-        if key not in case["env"]:
-            continue
-        s = case["env"][key]
-        if isinstance(v, bool):
-            exp[p] = s not in ("0", "")
-        elif isinstance(v, str) or v is None:
-            exp[p] = s
-        elif isinstance(v, (list, tuple)):
-            unc = True
-        else:
-            try:
-                exp[p] = type(v)(s)
-            except ValueError:
-                dc = True
-    if dc:
-        return "dontcare", {}
-    if unc:
-        return "uncastable", {}
-    return "ok", exp
-
-
-def oracle(case, before, exc, after):
-    kind, exp = expected(case, before)
-    if kind == "ambiguous":
-        return kind, (None if exc == "AmbiguousEnvVar" else "two settings map to one variable name but the load was not refused as ambiguous (got %s)" % exc)
-    if exc == "AmbiguousEnvVar":
-        return kind, "load refused as ambiguous although no two settings share a variable name"
-    if kind == "dontcare":
-        return kind, None
-    if kind == "uncastable":
-        return kind, (None if exc == "UncastableEnvVar" else "a list/tuple setting was named by the environment but not rejected (got %s)" % exc)
-    if exc is not None:
-        return kind, "unexpected %s" % exc
-    want = {p: typed(v) for p, v in leaves(before)}
-    want.update({p: typed(v) for p, v in exp.items()})
-    got = {p: typed(v) for p, v in leaves(after)}
-    if got != want:
-        diff = sorted(set(got.items()) ^ set(want.items()))[:4]
-        return kind, "settings after the load differ from 'named existing settings overridden, typed; all else untouched': %r" % (diff,)
-    if set(sections(after)) != set(sections(before)):
-        return kind, "sections changed: %r" % sorted(set(sections(after)) ^ set(sections(before)))[:4]
-    return kind, None
-
-
-def replay(case):
-    if case.get("kind") == "history":
-        why, _ = judge_history(case, run_history(case))
-        return why is None, why or "ok"
-    if case.get("kind") != "load":
-        return True, "auxiliary differential case (no property statement attached)"
-    before, exc, after = run_impl(case)
-    kind, why = oracle(case, before, exc, after)
-    return why is None, why or "ok (%s)" % kind
-
-
-# ------------------------------------------------------------------ model side
-
-def dec_tree(s):
-    """inverse of enc_tree for the leaf kinds the env level can contain"""
-    toks = s.split(",")
-    pos = [0]
-
-    def chars(x):
-        return "".join(chr(int(c)) for c in x.split(".")) if x else ""
-
-    def val():
-        t = toks[pos[0]]
-        pos[0] += 1
-        if t[0] == "D":
-            d = {}
-            for _ in range(int(t[1:])):
-                k = chars(toks[pos[0]][1:])
-                pos[0] += 1
-                d[k] = val()
-            return d
-        if t == "N":
-            return None
-        if t in "TF":
-            return t == "T"
-        if t[0] == "I":
-            return int(t[1:])
-        if t[0] == "S":
-            return chars(t[1:])
-        if t[0] == "L":
-            n = int(t[1:])
-            xs = [chars(x[1:]) for x in toks[pos[0]:pos[0] + n]]
-            pos[0] += n
-            return ("L", xs)
-        return ("O", t[1:])
-    return val()
-
-
-def overlay(base, upd):
-    out = copy.deepcopy(base)
-    for k, v in upd.items():
-        if isinstance(v, dict):
-            out[k] = overlay(out[k] if isinstance(out.get(k), dict) else {}, v)
-        else:
-            out[k] = v
-    return out
-
-
-def load_line(case, before):
-    return "load %s %s %s" % (enc_str(case["prefix"].upper() + "_"), enc_environ(case["env"]), enc_tree(before))
-
-
-def compare(case, before, exc, after, m, kind):
-    """None when model and implementation agree (on what the property constrains), else (impl, model) strings"""
-    if kind == "dontcare":
-        return None
-    if m.startswith("err:"):
-        got = "err:%s" % exc
-        return None if got == m else (got, m)
-    if exc is not None:
-        return ("err:%s" % exc, m[:200])
-    want = enc_tree(overlay(before, dec_tree(m[3:])), canon=True)
-    got = enc_tree(after, canon=True)
-    return None if want == got else (got[:300], want[:300])
-
-
-def names_float(case, before):
-    P = case["prefix"].upper() + "_"
-    return any(isinstance(v, float) and (P + var_of(p)) in case["env"] for p, v in leaves(before))
-
-
-def aux_cases(ctx, rng):
-    """differential checks of the CPython functions the model re-implements, and of the private helpers when present"""
-    cases, lines = [], []
-    alpha = " \t\n+-_0123456789x"
-    for s in VALUES + ["", " ", "+", "-", "_", "1_", "0_0", "+-1", "\x0b5\x0c", "\x1c5\x1f", "5 5"]:
-        cases.append({"kind": "int", "s": s})
-    for _ in range(ctx.n(300, 5000)):
-        cases.append({"kind": "int", "s": "".join(rng.choice(alpha) for _ in range(rng.randint(0, 6)))})
-    for _ in range(ctx.n(100, 1000)):
-        cases.append({"kind": "upper", "s": "".join(chr(rng.randint(32, 126)) for _ in range(rng.randint(0, 8)))})
-    for _ in range(ctx.n(200, 2000)):
-        cases.append({"kind": "cast", "old": tag(rng.choice([x for x in LEAVES if not isinstance(x, float)])), "s": rng.choice(VALUES)})
-    for _ in range(ctx.n(300, 3000)):
-        cases.append({"kind": "crawl", "tree": tag(gen_tree(rng))})
-    for c in cases:
-        if c["kind"] in ("int", "upper"):
-            lines.append("%s %s" % (c["kind"], enc_str(c["s"])))
-        elif c["kind"] == "cast":
-            lines.append("cast %s %s" % (",".join(enc_leaf(build(c["old"]))), enc_str(c["s"])))
-        else:
-            lines.append("crawl " + enc_tree(build(c["tree"])))
-    return cases, lines
-
-
-def aux_impl(c):
-    """canonical implementation answer for an auxiliary case, or None when the private helper no longer exists"""
-    if c["kind"] == "int":
-        try:
-            return "ok %d" % int(c["s"])
-        except ValueError:
-            return "err:ValueError"
-    if c["kind"] == "upper":
-        return "ok " + enc_chars(c["s"].upper())
-    try:
-        from invoke.env import Environment
-        Environment(config={}, prefix="")
-    except Exception:  # noqa  (private module reorganised: nothing to compare against)
-        return None
-    if c["kind"] == "cast":
-        fn = getattr(Environment(config={}, prefix=""), "_cast", None)
-        if fn is None:
-            return None
-        try:
-            return "ok " + ",".join(enc_leaf(fn(build(c["old"]), c["s"])))
-        except Exception as e:  # noqa
-            return "err:" + type(e).__name__
-    t = build(c["tree"])
-    env = Environment(config=t, prefix="")
-    fn = getattr(env, "_crawl", None)
-    if fn is None:
-        return None
-    try:
-        try:
-            got = fn(key_path=[], env_vars={})
-        except TypeError:
-            return None
-        return "ok " + ";".join(enc_chars(k) + "=" + "/".join(enc_chars(x) for x in p) for k, p in got.items())
-    except Exception as e:  # noqa
-        return "err:" + type(e).__name__
-
-
-
-# ------------------------------------------------------------------ histories: several load_shell_env() on ONE object
-
-LEVEL_CODE = {"defaults": "d", "collection": "c", "overrides": "o", "modifications": "m"}
-HIST_ORDER = ["defaults", "collection", "env", "overrides", "modifications"]
-NOWHERE = "/nonexistent-verif-c16/"
-
-
-def redraw(rng, v):
-    """another value for the same setting: mostly of the same type"""
-    if rng.random() < 0.12:
-        return rng.choices(LEAVES, LEAFW)[0]
-    if isinstance(v, bool):
-        return rng.random() < 0.5
-    if isinstance(v, int):
-        return rng.choice([0, 1, 7, -3, 12])
-    if isinstance(v, str):
-        return rng.choice(["s", "", "0", "txt"])
-    if v is None:
-        return rng.choice([None, None, "w"])
-    return copy.deepcopy(v)
-
-
-def variant(rng, master, p_in):
-    out = {}
-    for k, v in master.items():
-        if rng.random() >= p_in:
-            continue
-        out[k] = variant(rng, v, p_in) if isinstance(v, dict) else redraw(rng, v)
-    return out
-
-
-def merged(levels, env):
-    out = {}
-    for l in HIST_ORDER:
-        out = overlay(out, env if l == "env" else levels[l])
-    return out
-
-
-def gen_environ(rng, P, view, prev):
-    """an environment for this moment, derived from the previous one: variables removed / changed / added / all gone"""
-    lv = list(leaves(view))
-    r = rng.random()
-    if prev is not None and r < 0.1:
-        return dict(prev)
-    env = {}
-    if not (prev is not None and r < 0.35):  # else: every applicable variable is gone, only unrelated ones remain
-        for k, v in (prev or {}).items():
-            q = rng.random()
-            if q < 0.35:
-                continue
-            env[k] = v if q < 0.7 else rng.choice(VALUES + NUMERIC)
-        for p, v in lv:
-            if rng.random() < 0.3:
-                numeric = isinstance(v, (int, float)) and not isinstance(v, bool)
-                env[P + var_of(p)] = rng.choice(NUMERIC) if numeric and rng.random() < 0.85 else rng.choice(VALUES)
-        if prev is not None and not any((P + var_of(p)) in env for p, _ in lv) and lv:
-            p, v = rng.choice(lv)
-            env[P + var_of(p)] = "1"
-    if rng.random() < 0.6:
-        env[P + "NOT_A_SETTING"] = "1"
-    if rng.random() < 0.3:
-        env["UNRELATED"] = "x"
-    return {k: v for k, v in env.items() if k and "=" not in k}
-
-
-def gen_history(rng):
-    while True:
-        master = gen_tree(rng)
-        if rng.random() < 0.85 and len({var_of(p) for p, _ in leaves(master)}) != len(list(leaves(master))):
-            continue  # mostly collision-free vocabularies, so that histories get past the first load
-        if list(leaves(master)):
-            break
-    pre = rng.choice(["invoke", "invoke", "myapp", "my_app"])
-    how = "default" if pre == "invoke" else rng.choice(["prefix", "env_prefix"])
-    P = pre.upper() + "_"
-    levels = {"defaults": variant(rng, master, 0.8), "collection": {}, "overrides": {}, "modifications": {}}
-    ops = [{"op": "defaults", "tree": tag(levels["defaults"])}]
-    prev = None
-    for i in range(rng.choice([2, 2, 3, 3, 4])):
-        for _ in range(rng.choice([0, 0, 1, 1, 2]) if i else rng.choice([0, 1])):
-            r = rng.random()
-            if r < 0.5:
-                lvl = rng.choice(["defaults", "collection", "collection", "overrides"])
-                t = {} if rng.random() < 0.2 else variant(rng, master, rng.choice([0.4, 0.7, 0.9]))
-                levels[lvl] = t
-                ops.append({"op": lvl, "tree": tag(t)})
-            elif r < 0.8:
-                lv = list(leaves(master))
-                p, v = rng.choice(lv)
-                val = redraw(rng, v)
-                levels["modifications"] = overlay(levels["modifications"], _nest(p, val))
-                ops.append({"op": "write", "path": list(p), "value": tag(val)})
-            else:
-                ops.append({"op": "clone"})
-        environ = gen_environ(rng, P, merged(levels, {}), prev)
-        prev = environ
-        ops.append({"op": "env", "environ": environ})
-    return {"kind": "history", "prefix": pre, "how": how, "ops": ops}
-
-
-def _nest(path, v):
-    for k in reversed(path):
-        v = {k: v}
-    return v
-
-
-def write_path(c, path, value):
-    cur = c
-    for k in path[:-1]:
-        if k not in cur:
-            cur[k] = {}
-        cur = cur[k]
-    cur[path[-1]] = value
-
-
-def run_history(case):
-    """-> list of (exception class | None, view) per load_shell_env() call, stopping after the first exception;
-    a trailing ('crash:<Class>', None) when some other operation raised"""
-    from invoke.config import Config
-    pre, how = case["prefix"], case.get("how", "default")
-    klass = Config if how == "default" else type("HistConfig", (Config,), {("prefix" if how == "prefix" else "env_prefix"): pre})
-    obs = []
-    with replaced_environ({}):
-        c = None
-        try:
-            for op in case["ops"]:
-                kind = op["op"]
-                if kind == "env":
-                    os.environ.clear()
-                    os.environ.update(op["environ"])
-                    try:
-                        c.load_shell_env()
-                    except Exception as e:  # noqa
-                        obs.append((type(e).__name__, plain(c)))
-                        return obs
-                    finally:
-                        os.environ.clear()
-                    obs.append((None, plain(c)))
-                elif kind == "defaults" and c is None:
-                    c = klass(defaults=build(op["tree"]), system_prefix=NOWHERE, user_prefix=NOWHERE + ".", lazy=True)
-                elif kind == "defaults":
-                    c.load_defaults(build(op["tree"]))
-                elif kind == "collection":
-                    c.load_collection(build(op["tree"]))
-                elif kind == "overrides":
-                    c.load_overrides(build(op["tree"]))
-                elif kind == "write":
-                    write_path(c, op["path"], build(op["value"]))
-                elif kind == "clone":
-                    c = c.clone()
-        except Exception as e:  # noqa
-            obs.append(("crash:" + type(e).__name__, None))
-    return obs
-
-
-def semantics(base, environ, P):
-    """the property for one moment: which settings of `base` the environment overrides, and how
-    -> ('ambiguous' | 'uncastable' | 'dontcare' | 'ok', env-level tree)"""
-    kind, exp = expected({"prefix": P[:-1], "env": environ}, base)
-    tree = {}
-    for p, v in exp.items():
-        tree = overlay(tree, _nest(p, v))
-    return kind, tree
-
-
-def matches(kind, env_tree, levels, exc, view):
-    if kind == "ambiguous":
-        return exc == "AmbiguousEnvVar"
-    if kind == "uncastable":
-        return exc == "UncastableEnvVar"
-    if exc is not None:
-        return False
-    want = merged(levels, env_tree)
-    return ({p: typed(v) for p, v in leaves(want)} == {p: typed(v) for p, v in leaves(view)}
-            and set(sections(want)) == set(sections(view)))
-
-
-def judge_history(case, obs):
-    """-> (why | None, stats).  After every load the property is evaluated for the environment of THAT moment: the
-    existing settings are the ones the OTHER levels define now; whatever an earlier load applied is irrelevant."""
-    P = case["prefix"].upper() + "_"
-    levels = {"defaults": {}, "collection": {}, "overrides": {}, "modifications": {}}
-    i = 0
-    stats = {"loads": 0}
-    for op in case["ops"]:
-        kind = op["op"]
-        if kind in levels:
-            levels[kind] = build(op["tree"])
-        elif kind == "write":
-            levels["modifications"] = overlay(levels["modifications"], _nest(op["path"], build(op["value"])))
-        elif kind == "env":
-            if i >= len(obs):
-                return None, stats
-            exc, view = obs[i]
-            i += 1
-            if exc and exc.startswith("crash:"):
-                return "an operation other than load_shell_env raised %s" % exc[6:], stats
-            stats["loads"] += 1
-            k1, e1 = semantics(merged(levels, {}), op["environ"], P)
-            if k1 == "dontcare":
-                return None, stats
-            if not matches(k1, e1, levels, exc, view):
-                got = exc or {".".join(p): v for p, v in list(leaves(view))[:6]}
-                return ("load %d under %r: outcome %r is not 'exactly the existing settings named by the environment of this "
-                        "moment are overridden, typed; all else as the other levels say' (expected %s)" % (
-                            i, op["environ"], got, k1)), stats
-            if exc is not None:
-                return None, stats
-    if i < len(obs) and obs[i][0] and obs[i][0].startswith("crash:"):
-        return "an operation other than load_shell_env raised %s" % obs[i][0][6:], stats
-    return None, stats
-
-
-def history_line(case):
-    parts = ["hist", enc_str(case["prefix"].upper() + "_")]
-    mods = {}
-    for op in case["ops"]:
-        kind = op["op"]
-        if kind == "env":
-            parts.append("e=" + enc_environ(op["environ"]))
-        elif kind == "write":
-            mods = overlay(mods, _nest(op["path"], build(op["value"])))
-            parts.append("m=" + enc_tree(mods))
-        elif kind in LEVEL_CODE:
-            parts.append(LEVEL_CODE[kind] + "=" + enc_tree(build(op["tree"])))
-    return " ".join(parts)
-
-
-def history_has_opaque(case):
-    def any_float(t):
-        return any(isinstance(v, float) for _, v in leaves(t))
-    return any((op["op"] in LEVEL_CODE and any_float(build(op["tree"]))) or
-               (op["op"] == "write" and isinstance(build(op["value"]), float)) for op in case["ops"])
-
-
-def match_known(entry, failure):
-    return entry.get("id") == "C16-stale-env-premerge" and str(failure.get("why", "")).startswith("[stale-env]")
-
 # ------------------------------------------------------------------ run
 
 def run(ctx):
